@@ -139,6 +139,9 @@ func satAdd(a, b int64) int64 {
 	const top = never - 4096
 	s := a + b
 	if (b > 0 && s < a) || s > top {
+		if a > top {
+			return a // an origin above the cap: the clock stands still, it never moves backwards
+		}
 		return top
 	}
 	return s
